@@ -46,6 +46,12 @@ func (u Union) generateUnmarshalBebop(w *iohelp.ErrorWriter, settings GenerateSe
 	writeLine(w, "\tif len(buf) == 0 {")
 	writeLine(w, "\t\treturn iohelp.ErrUnpopulatedUnion")
 	writeLine(w, "\t}")
+	// discriminator and body are exactly as long as the prefix says: the member is not
+	// decoded from bytes beyond their end (which the enclosing record will decode again)
+	writeLine(w, "\tif uint64(len(buf)) < uint64(bodyLen)+1 {")
+	writeLine(w, "\t\treturn io.ErrUnexpectedEOF")
+	writeLine(w, "\t}")
+	writeLine(w, "\tbuf = buf[:int(bodyLen)+1]")
 	writeLine(w, "\tfor {")
 	writeLine(w, "\t\tswitch buf[at] {")
 	for _, fd := range fields {
@@ -57,10 +63,7 @@ func (u Union) generateUnmarshalBebop(w *iohelp.ErrorWriter, settings GenerateSe
 		writeLine(w, "\t\t\treturn nil")
 	}
 	writeLine(w, "\t\tdefault:")
-	// a member this version does not know is skipped unread, but it has to be there
-	writeLine(w, "\t\t\tif uint64(len(buf)) < uint64(bodyLen)+1 {")
-	writeLine(w, "\t\t\t\treturn io.ErrUnexpectedEOF")
-	writeLine(w, "\t\t\t}")
+	// a member this version does not know is skipped unread (it is there: checked above)
 	writeLine(w, "\t\t\treturn nil")
 	writeLine(w, "\t\t}")
 	writeLine(w, "\t}")
